@@ -212,3 +212,84 @@ impl<VM: VMBinding> ForwardingMetadata<VM> {
         self.calculated.load(Ordering::Relaxed)
     }
 }
+
+/// Verification hooks (only with `--cfg mmtk_verif`): run the Compressor's forwarding pipeline
+/// (`test_and_mark` + `mark_last_word_of_object`, `calculate_offset_vector`, `forward`,
+/// `scan_marked_objects`) on a region the harness maps itself, without a `CompressorSpace`.
+#[cfg(mmtk_verif)]
+pub mod verif_hooks {
+    use super::*;
+    use crate::util::metadata::side_metadata::SideMetadataContext;
+    use crate::util::os::*;
+
+    /// Bytes in a [`CompressorRegion`], bytes in an offset-vector [`Block`].
+    pub const REGION_BYTES: usize = CompressorRegion::BYTES;
+    pub const BLOCK_BYTES: usize = Block::BYTES;
+
+    fn context() -> SideMetadataContext {
+        SideMetadataContext {
+            global: vec![],
+            local: vec![MARK_SPEC, OFFSET_VECTOR_SPEC],
+        }
+    }
+
+    /// Map `bytes` of demand-zero memory at `start` (region aligned) plus the side metadata of
+    /// `COMPRESSOR_MARK` and `COMPRESSOR_OFFSET_VECTOR` covering it.
+    pub fn verif_map_region(start: Address, bytes: usize) -> Result<(), String> {
+        assert!(start.is_aligned_to(REGION_BYTES) && bytes % REGION_BYTES == 0);
+        let anno = MmapAnnotation::Misc {
+            name: "verif-compressor",
+        };
+        OS::dzmmap(start, bytes, MmapStrategy::default(), &anno).map_err(|e| e.to_string())?;
+        context()
+            .try_map_metadata_space(start, bytes, "verif-compressor")
+            .map_err(|e| e.to_string())
+    }
+
+    /// What `CompressorSpace::prepare` does for one region (clear the mark bits), plus clearing
+    /// the offset vector so that every layout starts from the same metadata.
+    pub fn verif_clear(start: Address, bytes: usize) {
+        MARK_SPEC.bzero_metadata(start, bytes);
+        OFFSET_VECTOR_SPEC.bzero_metadata(start, bytes);
+    }
+
+    /// What `CompressorSpace::trace_mark_object` does to the metadata: set the first-word mark
+    /// (`CompressorSpace::test_and_mark`) and, if newly marked, the last-word mark. Returns
+    /// whether the object was newly marked.
+    pub fn verif_mark_object<VM: VMBinding>(
+        fm: &ForwardingMetadata<VM>,
+        object: ObjectReference,
+    ) -> bool {
+        let newly = super::super::compressorspace::CompressorSpace::<VM>::test_and_mark(object);
+        if newly {
+            fm.mark_last_word_of_object(object);
+        }
+        newly
+    }
+
+    /// `CompressorSpace::is_marked`.
+    pub fn verif_is_marked<VM: VMBinding>(object: ObjectReference) -> bool {
+        super::super::compressorspace::CompressorSpace::<VM>::is_marked(object)
+    }
+
+    /// `ForwardingMetadata::calculate_offset_vector` for the region starting at `region_start`
+    /// with allocation cursor `cursor` (page aligned, as `RegionPageResource` keeps it).
+    pub fn verif_calculate_offset_vector<VM: VMBinding>(
+        fm: &ForwardingMetadata<VM>,
+        region_start: Address,
+        cursor: Address,
+    ) {
+        fm.calculate_offset_vector(CompressorRegion::from_aligned_address(region_start), cursor);
+    }
+
+    /// The raw mark bit of the word at `addr`.
+    pub fn verif_mark_bit(addr: Address) -> u8 {
+        MARK_SPEC.load_atomic::<u8>(addr, Ordering::SeqCst)
+    }
+
+    /// The raw offset-vector entry of the block containing `addr`.
+    pub fn verif_offset_vector_entry(addr: Address) -> usize {
+        OFFSET_VECTOR_SPEC
+            .load_atomic::<usize>(Block::from_unaligned_address(addr).start(), Ordering::SeqCst)
+    }
+}
